@@ -12,6 +12,9 @@ Definition bytes := list Z.
 Definition is_byte (b : Z) : bool := (0 <=? b) && (b <? 256).
 Definition all_bytes (l : bytes) : bool := forallb is_byte l.
 
+(* Go's byte(x) conversion of a non-negative int (target of srcgen for `byte(...)` where the wrap-around matters) *)
+Definition wrap8 (x : Z) : Z := x mod 256.
+
 Definition zlen {A} (l : list A) : Z := Z.of_nat (length l).
 
 (* three-valued results: Ok, an ordinary error (class as a small number), or a Go panic *)
